@@ -287,36 +287,67 @@ impl<'a> Reader<'a> {
         Ok(())
     }
 
-    fn read_file(&mut self) -> anyhow::Result<()> {
-        self.read_signature()?;
+    /// Reads one record.  Returns false at a clean end of file.
+    fn read_record(&mut self) -> std::io::Result<bool> {
+        let mut len = match self.read_u16() {
+            Ok(r) => r,
+            Err(err) if err.kind() == std::io::ErrorKind::UnexpectedEof => {
+                // Either the end of the log or a record header cut short by a crash;
+                // the caller truncates back to the last complete record either way.
+                return Ok(false);
+            }
+            Err(err) => return Err(err),
+        };
+        let mask = 0b1000_0000_0000_0000;
+        if len & mask == 0 {
+            self.read_path(len as usize)?;
+        } else {
+            len &= !mask;
+            self.read_build(len as usize)?;
+        }
+        Ok(true)
+    }
+
+    /// Reads the whole file.  Returns the length of the valid prefix: everything
+    /// after it is a record that was only partially written (n2 or the machine
+    /// died while appending) and is to be discarded.  0 means not even the
+    /// signature is complete, i.e. the db was never fully created.
+    fn read_file(&mut self) -> anyhow::Result<u64> {
+        use std::io::Seek;
+        match self.read_signature() {
+            Ok(()) => {}
+            Err(err) => match err.downcast_ref::<std::io::Error>() {
+                Some(io) if io.kind() == std::io::ErrorKind::UnexpectedEof => return Ok(0),
+                _ => return Err(err),
+            },
+        }
+        let mut valid = self.r.stream_position()?;
         loop {
-            let mut len = match self.read_u16() {
-                Ok(r) => r,
+            match self.read_record() {
+                Ok(true) => valid = self.r.stream_position()?,
+                Ok(false) => break,
                 Err(err) if err.kind() == std::io::ErrorKind::UnexpectedEof => break,
                 Err(err) => bail!(err),
-            };
-            let mask = 0b1000_0000_0000_0000;
-            if len & mask == 0 {
-                self.read_path(len as usize)?;
-            } else {
-                len &= !mask;
-                self.read_build(len as usize)?;
             }
         }
-        Ok(())
+        Ok(valid)
     }
 
     /// Reads an on-disk database, loading its state into the provided Graph/Hashes.
-    fn read(f: &mut File, graph: &mut Graph, hashes: &mut Hashes) -> anyhow::Result<IdMap> {
+    fn read(
+        f: &mut File,
+        graph: &mut Graph,
+        hashes: &mut Hashes,
+    ) -> anyhow::Result<(IdMap, u64)> {
         let mut r = Reader {
             r: std::io::BufReader::new(f),
             ids: IdMap::default(),
             graph,
             hashes,
         };
-        r.read_file()?;
+        let valid = r.read_file()?;
 
-        Ok(r.ids)
+        Ok((r.ids, valid))
     }
 }
 
@@ -328,8 +359,17 @@ pub fn open(path: &Path, graph: &mut Graph, hashes: &mut Hashes) -> anyhow::Resu
         .open(path)
     {
         Ok(mut f) => {
-            let ids = Reader::read(&mut f, graph, hashes)?;
-            Ok(Writer::from_opened(ids, f))
+            let (ids, valid) = Reader::read(&mut f, graph, hashes)?;
+            // Drop a partially written tail so that new records are appended
+            // right after the last complete one.
+            if f.metadata()?.len() != valid {
+                f.set_len(valid)?;
+            }
+            let mut w = Writer::from_opened(ids, f);
+            if valid == 0 {
+                w.write_signature()?;
+            }
+            Ok(w)
         }
         Err(err) if err.kind() == std::io::ErrorKind::NotFound => {
             let w = Writer::create(path)?;
